@@ -23,10 +23,12 @@ def run(idx, rep, tier):
     hydro.r_forcedir(idx, rep)
     hydro.r_polyguard(idx, rep)
     hydro.r_planecross(idx, rep)
+    hydro.r_planecross_caller(idx, rep)
     sides.r_sides(idx, rep, [m.name for m in idx.lib_modules() if "hydroelastic" in m.name], floor=20)
     hydro.r_invalidate(idx, rep)      # stale per-body caches (tetrahedra points, barycentric transforms) put polygons outside their tetrahedra
     misc2.r_dupcond(idx, rep, [m.name for m in idx.lib_modules()], floor=3)
     misc2.r_stiffness(idx, rep)
+    misc2.r_stiffness_chain(idx, rep)
     misc2.r_hplayout(idx, rep)
     misc2.r_anglesort(idx, rep)
     unpack.r_unpack(idx, rep, floor=6)
